@@ -8,6 +8,11 @@ differs from the specification is reported with a semantic signature."""
 import json, os, random, hashlib
 from vlib.core import Infra, read_ndjson, write_ndjson
 
+# TLC pre-computes constant definitions (type bounds, the case file) on the JVM's main thread; with the default main-thread
+# stack that fails silently for deep recursions and TLC falls back to re-evaluating them at every use (measured: 40 ms per
+# state instead of 0.2 ms). JDK_JAVA_OPTIONS is read by the java launcher itself, so it also sizes the main thread.
+os.environ.setdefault("JDK_JAVA_OPTIONS", "-Xss512m")
+
 LEVEL = {"C46": "model_checking", "C47": "model_checking", "C35": "model_checking",
          "C17": "model_checking", "C40": "model_checking"}
 
